@@ -1515,3 +1515,82 @@ func escapeSkipExec(c *Ctx, r *Report, rule string) {
 	}
 	r.check(len(problems) == 0, rule, "escapedNameLen", c.pos(fn.Pos()), "(1,0) (4,-3) (2,-1)", "%s", strings.Join(problems, "; "))
 }
+
+// ownGeneration: serveTCP and serveUDP close the drain channel of their own generation: the channel is taken from
+// Server.shutdown once, before the loop blocks for the first time, and never read again (not in the deferred
+// wait-then-close either). A restart after an expired ShutdownContext installs a new channel in the field while the old
+// loop is still draining; read at close time, the old loop would close the new generation's channel (its Shutdown
+// returns early, and its own serve call panics closing the channel a second time).
+func ownGeneration(c *Ctx, r *Report, rule string) {
+	r.rule(rule, 2, "serveTCP and serveUDP read Server.shutdown only before their first blocking read (not at close time)")
+	for _, name := range []string{"Server.serveTCP", "Server.serveUDP"} {
+		fn := c.ssaFunc(name)
+		if fn == nil {
+			r.cerr(rule, name, "function not found")
+			continue
+		}
+		r.fn(name)
+		isBlocking := func(in ssa.Instruction) bool {
+			ci, ok := in.(ssa.CallInstruction)
+			if !ok || !ci.Common().IsInvoke() {
+				return false
+			}
+			switch ci.Common().Method.Name() {
+			case "Accept", "ReadUDP", "ReadPacketConn", "ReadTCP":
+				return true
+			}
+			return false
+		}
+		// blocks at or behind a blocking call
+		late := map[*ssa.BasicBlock]int{}
+		for _, b := range fn.Blocks {
+			for i, in := range b.Instrs {
+				if isBlocking(in) {
+					if _, has := late[b]; !has {
+						late[b] = i
+					}
+					for rb := range reach(b, nil, nil) {
+						if rb != b {
+							if _, has := late[rb]; !has {
+								late[rb] = -1
+							}
+						} else if _, has := late[rb]; !has {
+							late[rb] = i
+						}
+					}
+				}
+			}
+		}
+		readsDrain := func(in ssa.Instruction) bool {
+			if ld, ok := in.(*ssa.UnOp); ok && ld.Op == token.MUL && readsField("Server", "shutdown")(ld.X) {
+				return true
+			}
+			if call, ok := in.(*ssa.Call); ok {
+				if g := call.Call.StaticCallee(); g != nil && g.Pkg == fn.Pkg && len(g.Blocks) > 0 && g != fn {
+					if _, isChan := call.Type().Underlying().(*types.Chan); isChan && isDrainChan(call, 3) {
+						return true
+					}
+				}
+			}
+			return false
+		}
+		var bad []string
+		n := 0
+		for _, sub := range withAnon(fn) {
+			allInstrs(sub, func(in ssa.Instruction) {
+				if !readsDrain(in) {
+					return
+				}
+				n++
+				if sub != fn {
+					bad = append(bad, fmt.Sprintf("%s (inside a closure, i.e. when it runs)", c.pos(in.Pos())))
+					return
+				}
+				if idx, isLate := late[in.Block()]; isLate && (idx < 0 || instrIndex(in) > idx) {
+					bad = append(bad, fmt.Sprintf("%s (behind a blocking read)", c.pos(in.Pos())))
+				}
+			})
+		}
+		r.check(n > 0 && len(bad) == 0, rule, name, c.pos(fn.Pos()), "captured once at the start", "Server.shutdown is read at %s: after an expired ShutdownContext and a restart the field holds the new generation's channel, so the old loop, when its handlers are finally done, closes the new one: the new generation's Shutdown returns while its handlers still run, and its serve call panics with 'close of closed channel'", strings.Join(bad, ", "))
+	}
+}
